@@ -4,7 +4,7 @@ CONSTANTS
   NSpot = 7
   NTime = 3
   NVol = 3
-  NStrike = 2
+  NStrike = 3
   NMax = 3
 INVARIANT Emit
 CHECK_DEADLOCK FALSE
